@@ -716,8 +716,10 @@ class Array(Tuple):
         self.original_value = list(values)
 
     def get_sql(self, ctx: SqlContext) -> str:
-        if ctx.parameterizer is None or not ctx.parameterizer.should_parameterize(
-            self.original_value
+        if (
+            ctx.parameterizer is None
+            or not ctx.parameterizer.should_parameterize(self.original_value)
+            or any(isinstance(value, Node) for value in self.original_value)
         ):
             values = ",".join(term.get_sql(ctx) for term in self.values)
 
@@ -728,7 +730,7 @@ class Array(Tuple):
             return format_alias_sql(sql, self.alias, ctx)
 
         param = ctx.parameterizer.create_param(self.original_value)
-        return param.get_sql(ctx)
+        return format_alias_sql(param.get_sql(ctx), self.alias, ctx)
 
 
 class Bracket(Tuple):
@@ -1393,12 +1395,14 @@ class Function(Criterion):
         return arg.get_sql(arg_ctx) if hasattr(arg, "get_sql") else str(arg)
 
     def get_function_sql(self, ctx: SqlContext) -> str:
+        # Render in textual order: parameters are collected in the order the parts are rendered
+        args_sql = ",".join(self.get_arg_sql(arg, ctx) for arg in self.args)
         # pylint: disable=E1111
         special_params_sql = self.get_special_params_sql(ctx)
 
         return "{name}({args}{special})".format(
             name=self.name,
-            args=",".join(self.get_arg_sql(arg, ctx) for arg in self.args),
+            args=args_sql,
             special=(" " + special_params_sql) if special_params_sql else "",
         )
 
